@@ -119,6 +119,9 @@ structure Resp where
   ctype : String := ""
   body : Bytes := []
   term : Term := .eof
+  /-- (environment of the download) how many bytes the spool file takes before a
+      write fails - ENOSPC, EFBIG, EIO; `none` = no limit -/
+  disk : Option Nat := none
 deriving Repr
 
 /-- What `io.Copy(buf, zr)` writes to the spool file; `none` = error. -/
@@ -128,6 +131,20 @@ def decompress (P : Params) (k : Kind) (body : Bytes) (term : Term) : Option Byt
   | .gzip => P.unz .gzip body term
   | .zstd => P.unz .zstd body term
   | _ => none
+
+/-- The spool file takes the payload. -/
+def fits (limit : Option Nat) (payload : Bytes) : Bool :=
+  match limit with
+  | none => true
+  | some n => decide (payload.length ≤ n)
+
+/-- `io.Copy(buf, zr)` followed by `buf.Flush()` on the spool file: the
+    decompressed payload, if every write succeeded; `none` = error from the
+    decoder, the transport under it, or the file. -/
+def spool (P : Params) (k : Kind) (r : Resp) : Option Bytes :=
+  match decompress P k r.body r.term with
+  | none => none
+  | some p => if fits r.disk p then some p else none
 
 structure Entry where
   key : Bytes
@@ -183,7 +200,7 @@ def fetchCoreH (P : Params) (drain : Bool) (arena : Arena) (key uri : Bytes) (r 
   | none => ⟨[.lookup false, .request, .status true, .detect (some k), .ctype (some ct), .want none], none⟩
   | some w =>
   if k ≠ w then ⟨[.lookup false, .request, .status true, .detect (some k), .ctype (some ct), .want (some w)], none⟩ else
-  match decompress P k r.body r.term with
+  match spool P k r with
   | none => ⟨[.lookup false, .request, .status true, .detect (some k), .ctype (some ct), .want (some w), .copy false], none⟩
   | some payload =>
   if drain && r.term ≠ .eof then
@@ -192,6 +209,9 @@ def fetchCoreH (P : Params) (drain : Bool) (arena : Arena) (key uri : Bytes) (r 
     ⟨[.lookup false, .request, .status true, .detect (some k), .ctype (some ct), .want (some w), .copy true, .drain true, .compare false], none⟩ else
   ⟨[.lookup false, .request, .status true, .detect (some k), .ctype (some ct), .want (some w), .copy true, .drain true,
     .compare true, .publish key payload], some payload⟩
+
+/-- Number of requests made on behalf of one `fetchUnlinkedFile`. -/
+def FileResult.requests (fr : FileResult) : Nat := fr.effs.count .request
 
 /-- With the response read to its end, everything delivered has gone through the
     TeeReader (`Stream` below: `drain_covers_stream`). -/
@@ -327,6 +347,16 @@ def realizeLoop (P : Params) : Arena → List Req → Arena × List Bytes × Lis
       | (a'', ks, vs, ok) => (a'', rq.key :: ks, v :: vs, ok)
 
 def unrefAll (a : Arena) (ks : List Bytes) : Arena := ks.foldl Arena.unref a
+
+/-- Requests made for the layers of one call, in order, up to and including
+    the first layer that fails. -/
+def realizeReqs (P : Params) : Arena → List Req → List Nat
+  | _, [] => []
+  | a, rq :: rest =>
+    (fetchUnlinked P a rq.key rq.uri rq.resp).requests ::
+      match fetchInto P a rq with
+      | (_, none) => []
+      | (a', some _) => realizeReqs P a' rest
 
 structure State where
   arena : Arena := []
